@@ -98,3 +98,35 @@ Definition core_bulk (f : features) (now : Z) (atomic cont : bool) (s : state) (
   run_bulk (core_exec_b f now) bres_ok BCancelled only_sequences atomic cont s es.
 Definition core_sched (f : features) (now : Z) (cont : bool) (s : state) (es : list op) (sched : list (nat * bool)) :=
   run_sched (core_exec_b f now) bres_ok BCancelled cont es s false sched.
+
+(* ---------- instantiation with the schema-aware controller (Ledger/SchemaCtrl.v: runLog's schema lookup in strict / audit
+   mode, chart default metadata, payload validation) ----------
+   Bulker.processElement forwards ONE schemaVersion (the query parameter of the request) to every element, with the
+   element's own idempotency key and input; bulk elements never name a transaction template. *)
+From LV Require Import Ledger.Chart Ledger.SchemaCtrl.
+
+Section SchemaBulk.
+  Variable re_valid : str -> bool.
+  Variable re_match : str -> str -> bool.
+  Variable f : features.
+  Variable m : mode.
+  Variable now : Z.
+  Variable version : str.                 (* BulkingOptions.SchemaVersion *)
+
+  Inductive sbres := SBRes (r : option sresult) | SBCancelled.
+  Definition sbres_ok (r : sbres) : bool := match r with SBRes (Some (SOk _ _ _)) => true | _ => false end.
+
+  Definition schema_exec_b (ss : sstate) (o : op) : sstate * sbres :=
+    match sstep re_valid re_match f m now ss (SWrite version ""%string o) with
+    | SSR s' r => (s', SBRes (Some r))
+    | SSPanic => (ss, SBRes None)
+    end.
+
+  (* rollback of the bulk's transaction: every table as before, sequences as the elements left them *)
+  Definition srollback (s0 s1 : sstate) : sstate := with_base s0 (only_sequences (ss_base s0) (ss_base s1)).
+
+  Definition schema_bulk (atomic cont : bool) (ss : sstate) (es : list op) : sstate * list sbres :=
+    run_bulk schema_exec_b sbres_ok SBCancelled srollback atomic cont ss es.
+  Definition schema_sched (cont : bool) (ss : sstate) (es : list op) (sched : list (nat * bool)) :=
+    run_sched schema_exec_b sbres_ok SBCancelled cont es ss false sched.
+End SchemaBulk.
